@@ -58,7 +58,8 @@ RULE = ('per decoder: all byte strings of <= 2 octets (exhaustive), every single
         'position), truncation and extension of every byte string harvested from the unit tests, every registered '
         'link-state TLV type x sub-length 0..16 x filler patterns, every octet position of ~30 well-formed UPDATE '
         'bodies (one per address family / route type, built with the reference encoder) set to each of 60 boundary '
-        'values (all 256 in the thorough tier) through Update.parse, Hypothesis random / TLV-soup inputs up to 4096 '
+        'values (all 256 in the thorough tier) through Update.parse, every registered link-state / prefix-SID TLV nested '
+        'inside itself as deep as 4000 octets allow (x fixed-prefix lengths x innermost values), Hypothesis random / TLV-soup inputs up to 4096 '
         'octets. Non-trivial = input of >= 3 octets that is not one of the harvested valid encodings, or one of the '
         'exhaustive short strings; distinct by (decoder, bytes).')
 ASSUMPTIONS = [
@@ -294,6 +295,8 @@ def shards(tier):
                     'maxlen': 16 if tier == 'quick' else 24})
     for i in range(16):
         out.append({'name': 'field-values-%d' % i, 'kind': 'fields', 'part': i, 'parts': 16})
+    for i in range(8):
+        out.append({'name': 'tlv-towers-%d' % i, 'kind': 'towers', 'part': i, 'parts': 8})
     for i in range(4 if tier == 'quick' else 16):
         out.append({'name': 'field-pairs-%d' % i, 'kind': 'fields2', 'examples': 1500 if tier == 'quick' else 60000,
                     'hypothesis': True})
@@ -375,6 +378,50 @@ def run_shard(spec, seed, col, tier):
                 if sample is None and rng:
                     sample = {'decoder': UPDATE_ENTRY[0], 'data': data.hex(), 'base': cname, 'position': pos}
         col.bulk(n, nt, label='field-values', sample=sample)
+    elif kind == 'towers':
+        # a TLV nested inside itself as deep as 4000 octets allow (work must stay linear in the input): every registered
+        # link-state / prefix-SID TLV type x the number of fixed octets in front of its sub-TLVs x innermost value
+        PRE = [0, 1, 2, 3, 4, 6, 7, 8, 12, 16, 20, 22, 24, 32]
+        jobs = []
+        for tc in sorted(LinkState.registered_tlvs):
+            for pre in PRE:
+                jobs.append(('ls', tc, pre))
+        for tc in sorted(BGPPrefixSID.registered_tlvs):
+            for pre in PRE:
+                jobs.append(('sid', tc, pre))
+        n = 0
+        sample = None
+        for kind_, tc, pre in jobs[spec['part']::spec['parts']]:
+            for inner in (None, b'', b'\x00', b'\x00\x00', b'\x00' * 5):
+                for limit in (4000, 600):
+                    # innermost: nothing at all, or the same TLV with a value cut short (no fixed octets)
+                    if inner is None:
+                        v = b''
+                    elif kind_ == 'ls':
+                        v = struct.pack('!HH', tc, len(inner)) + inner
+                    else:
+                        v = struct.pack('!BH', tc, len(inner)) + inner
+                    while True:
+                        if kind_ == 'ls':
+                            nv = struct.pack('!HH', tc, pre + len(v)) + b'\x00' * pre + v
+                        else:
+                            nv = struct.pack('!BH', tc, pre + len(v)) + b'\x00' * pre + v
+                        if len(nv) > limit:
+                            break
+                        v = nv
+                    if kind_ == 'ls':
+                        targets = [('LinkState.unpack/pro=2', v), ('LinkState.unpack/pro=None', v),
+                                   ('Update.parse', rc.update_body(attrs=rc.a_unknown(29, v, flags=0x80, ext=True)))]
+                    else:
+                        targets = [('BGPPrefixSID.unpack', v),
+                                   ('Update.parse', rc.update_body(attrs=rc.a_unknown(40, v, flags=0xC0, ext=True)))]
+                    for name, data in targets:
+                        for sig, detail in call(name, data, col):
+                            col.fail(sig, {'decoder': name, 'data': data.hex()}, detail)
+                        n += 1
+                    if sample is None:
+                        sample = {'decoder': targets[0][0], 'data': v[:80].hex() + '...', 'type': tc, 'fixed-octets': pre}
+        col.bulk(n, n, label='tlv-towers', sample=sample)
     elif kind == 'fields2':
         corpus = [b for _, b in structured_corpus()]
         strat = st.tuples(st.sampled_from(UPDATE_ENTRY), st.sampled_from(corpus), st.lists(
